@@ -131,6 +131,23 @@ class ReadOnlyWorld(BufWorld):
     def final_check(self):
         self.unwind()
         self.verify("final")
+        if not getattr(self, "dead", False) and self.ci.buffered:
+            # whatever happened before (also writes to the bystander inside nested contexts): once
+            # every context is left, a buffered session that only READS writes nothing, to any file
+            for i in self.roots():
+                h = self.handles[i]
+                res = self.res[h.res]
+                raw0 = (res.raw(), res.stat() if hasattr(res, "stat") else None)
+                for kind in ("obj", "cls"):
+                    ctx = h.real.buffered if kind == "obj" else type(h.real).buffer_backend()
+                    with ctx:
+                        h.real()
+                    raw1 = (res.raw(), res.stat() if hasattr(res, "stat") else None)
+                    if raw1 != raw0:
+                        raise Mismatch("read_only_session_wrote", res=h.res, context=kind,
+                                       before=repr(raw0)[:160], after=repr(raw1)[:160])
+                self.events["final_read_only_sessions"] += 1
+            self.verify("final-sessions")
         audit.stop()
 
 
@@ -175,6 +192,9 @@ def _gen_step(ci, dom, script=None):
             if by and c in (12, 13):
                 # the bystander is written while the watched object is only read
                 return gen.draw_mutator(draw, w, draw(st.sampled_from(by)), dom, p_raise=0)
+            if by and ci.buffered and c == 18 and len(w.stack) < 4:
+                # ... also inside its OWN context nested in whatever is open
+                return {"t": "enter_obj", "h": draw(st.sampled_from(by))}
             if ci.buffered and c == 14:
                 return {"t": "setcap", "n": draw(st.sampled_from([0, 1, 2, 10, 10**9]))}
             if ci.buffered and by and c == 16 and w.stack:
